@@ -222,3 +222,165 @@ def stat_counter(src):
 
 EXTRA2 = (("augassign-expanded", augassign_expanded), ("de-morgan", de_morgan), ("and-nested", and_nested),
           ("early-continue", early_continue), ("stat-counter", stat_counter))
+
+
+# ---- third set: the rewrites planned in DESIGN section 8 ----------------------------------------------------------
+class _WithToAcquire(ast.NodeTransformer):
+    """`with L:` (one item, no `as`, L a name / attribute chain) -> `L.acquire(); try: ... finally: L.release()`."""
+    def visit_With(self, node):
+        self.generic_visit(node)
+        if len(node.items) == 1 and node.items[0].optional_vars is None and isinstance(node.items[0].context_expr, (ast.Name, ast.Attribute)) \
+                and "lock" in ast.unparse(node.items[0].context_expr).lower():
+            L = node.items[0].context_expr
+            import copy
+            acq = ast.Expr(value=ast.Call(func=ast.Attribute(value=copy.deepcopy(L), attr="acquire", ctx=ast.Load()), args=[], keywords=[]))
+            rel = ast.Expr(value=ast.Call(func=ast.Attribute(value=copy.deepcopy(L), attr="release", ctx=ast.Load()), args=[], keywords=[]))
+            tr = ast.Try(body=node.body, handlers=[], orelse=[], finalbody=[rel])
+            return [ast.copy_location(acq, node), ast.copy_location(tr, node)]
+        return node
+
+
+def with_to_acquire(src):
+    tree = _WithToAcquire().visit(ast.parse(src))
+    ast.fix_missing_locations(tree)
+    return ast.unparse(tree) + "\n"
+
+
+class _AcquireToWith(ast.NodeTransformer):
+    """`L.acquire()` immediately followed by `try: B finally: L.release()` (no handlers) -> `with L: B`."""
+    def _block(self, stmts):
+        out = []
+        i = 0
+        while i < len(stmts):
+            s = stmts[i]
+            if (i + 1 < len(stmts) and isinstance(s, ast.Expr) and isinstance(s.value, ast.Call) and isinstance(s.value.func, ast.Attribute)
+                    and s.value.func.attr == "acquire" and not s.value.args and not s.value.keywords):
+                L = ast.unparse(s.value.func.value)
+                t = stmts[i + 1]
+                if (isinstance(t, ast.Try) and not t.handlers and not t.orelse and len(t.finalbody) == 1 and isinstance(t.finalbody[0], ast.Expr)
+                        and ast.unparse(t.finalbody[0].value) == "%s.release()" % L):
+                    out.append(ast.copy_location(ast.With(items=[ast.withitem(context_expr=s.value.func.value, optional_vars=None)], body=t.body), s))
+                    i += 2
+                    continue
+            out.append(s)
+            i += 1
+        return out
+
+    def generic_visit(self, node):
+        super().generic_visit(node)
+        for field in ("body", "orelse", "finalbody"):
+            v = getattr(node, field, None)
+            if isinstance(v, list) and v and isinstance(v[0], ast.stmt):
+                setattr(node, field, self._block(v))
+        return node
+
+
+def acquire_to_with(src):
+    tree = _AcquireToWith().visit(ast.parse(src))
+    ast.fix_missing_locations(tree)
+    return ast.unparse(tree) + "\n"
+
+
+class _Filter(ast.NodeTransformer):
+    def visit_Call(self, node):
+        self.generic_visit(node)
+        if isinstance(node.func, ast.Name) and node.func.id == "list" and len(node.args) == 1 and isinstance(node.args[0], ast.Call):
+            f = node.args[0]
+            if isinstance(f.func, ast.Name) and f.func.id == "filter" and len(f.args) == 2 and isinstance(f.args[0], ast.Attribute) and f.args[0].attr == "__contains__":
+                X, Y = f.args[0].value, f.args[1]
+                v = ast.Name(id="x_", ctx=ast.Load())
+                return ast.copy_location(ast.ListComp(elt=v, generators=[ast.comprehension(target=ast.Name(id="x_", ctx=ast.Store()), iter=Y,
+                                         ifs=[ast.Compare(left=ast.Name(id="x_", ctx=ast.Load()), ops=[ast.In()], comparators=[X])], is_async=0)]), node)
+        return node
+
+
+def filter_to_comprehension(src):
+    tree = _Filter().visit(ast.parse(src))
+    ast.fix_missing_locations(tree)
+    return ast.unparse(tree) + "\n"
+
+
+class _Range(ast.NodeTransformer):
+    """`e < lo or e > hi` -> `not lo <= e <= hi` (same subject text on both sides, effect-free)."""
+    def visit_BoolOp(self, node):
+        self.generic_visit(node)
+        if isinstance(node.op, ast.Or) and len(node.values) == 2 and all(isinstance(v, ast.Compare) and len(v.ops) == 1 for v in node.values):
+            a, b = node.values
+            if isinstance(a.ops[0], ast.Lt) and isinstance(b.ops[0], ast.Gt) and ast.unparse(a.left) == ast.unparse(b.left) \
+                    and not any(isinstance(x, ast.Call) for x in ast.walk(a.left)):
+                ch = ast.Compare(left=a.comparators[0], ops=[ast.LtE(), ast.LtE()], comparators=[a.left, b.comparators[0]])
+                return ast.copy_location(ast.UnaryOp(op=ast.Not(), operand=ch), node)
+        return node
+
+
+def range_chained(src):
+    tree = _Range().visit(ast.parse(src))
+    ast.fix_missing_locations(tree)
+    return ast.unparse(tree) + "\n"
+
+
+def _simple_assign(st):
+    if not (isinstance(st, ast.Assign) and len(st.targets) == 1 and isinstance(st.targets[0], ast.Name)):
+        return None
+    for x in ast.walk(st.value):
+        if isinstance(x, (ast.Call, ast.Await, ast.Yield, ast.YieldFrom, ast.NamedExpr, ast.Subscript, ast.Attribute)):
+            return None
+    return st.targets[0].id, set(n.id for n in ast.walk(st.value) if isinstance(n, ast.Name))
+
+
+def independent_swapped(src):
+    """two adjacent assignments of effect-free expressions to different plain names, neither reading the other's
+    target, are swapped."""
+    tree = ast.parse(src)
+    for fn in [n for n in ast.walk(tree) if isinstance(n, (ast.FunctionDef, ast.AsyncFunctionDef))]:
+        for node in ast.walk(fn):
+            for field in ("body", "orelse", "finalbody"):
+                v = getattr(node, field, None)
+                if not (isinstance(v, list) and v and isinstance(v[0], ast.stmt)):
+                    continue
+                i = 0
+                while i + 1 < len(v):
+                    a, b = _simple_assign(v[i]), _simple_assign(v[i + 1])
+                    if a and b and a[0] != b[0] and a[0] not in b[1] and b[0] not in a[1]:
+                        v[i], v[i + 1] = v[i + 1], v[i]
+                        i += 2
+                    else:
+                        i += 1
+    ast.fix_missing_locations(tree)
+    return ast.unparse(tree) + "\n"
+
+
+def method_wrapped(src):
+    """every plain method `m` of every class (not dunder, not decorated, no bare `super()` inside, not a generator)
+    becomes `impl_m` plus a wrapper `def m(self, <same signature>): return self.impl_m(<same arguments>)`."""
+    tree = ast.parse(src)
+    import copy
+    for cls in [n for n in ast.walk(tree) if isinstance(n, ast.ClassDef)]:
+        new_body = []
+        for fn in cls.body:
+            new_body.append(fn)
+            if not isinstance(fn, ast.FunctionDef) or fn.decorator_list or fn.name.startswith("__") or not fn.args.args or fn.args.args[0].arg != "self":
+                continue
+            if any(isinstance(x, (ast.Yield, ast.YieldFrom)) for x in ast.walk(fn)):
+                continue
+            if any(isinstance(x, ast.Call) and isinstance(x.func, ast.Name) and x.func.id == "super" for x in ast.walk(fn)):
+                continue
+            if fn.args.posonlyargs or fn.args.kwonlyargs:
+                continue
+            impl = "impl_%s" % fn.name
+            wrapper = copy.deepcopy(fn)
+            call_args = [ast.Name(id=a.arg, ctx=ast.Load()) for a in fn.args.args[1:]]
+            if fn.args.vararg:
+                call_args.append(ast.Starred(value=ast.Name(id=fn.args.vararg.arg, ctx=ast.Load()), ctx=ast.Load()))
+            kws = [ast.keyword(arg=None, value=ast.Name(id=fn.args.kwarg.arg, ctx=ast.Load()))] if fn.args.kwarg else []
+            doc = fn.body[:_doc_skip(fn.body)]
+            wrapper.body = doc + [ast.Return(value=ast.Call(func=ast.Attribute(value=ast.Name(id="self", ctx=ast.Load()), attr=impl, ctx=ast.Load()), args=call_args, keywords=kws))]
+            fn.name = impl
+            new_body.append(wrapper)
+        cls.body = new_body
+    ast.fix_missing_locations(tree)
+    return ast.unparse(tree) + "\n"
+
+
+EXTRA3 = (("with-to-acquire", with_to_acquire), ("acquire-to-with", acquire_to_with), ("filter-to-comprehension", filter_to_comprehension),
+          ("range-chained", range_chained), ("independent-swapped", independent_swapped), ("method-wrapped", method_wrapped))
